@@ -229,8 +229,10 @@ def gen_histories(ck, n, steps):
             first = rng.choice(ids + ids + [200, 0, 9])
             return [first, i % 256, rng.randrange(256)] + [rng.randrange(256) for _ in range(rng.choice([0, 0, 1, 5, 40]))]
 
+        attached = False
         if rng.random() < 0.9:
             beh.append({"a": "attach", "arg": {"x": 0}})
+            attached = True
             table_ops(rng.randrange(1, 5))
         for _ in range(rng.randrange(2, 7)):
             nin += 1
@@ -269,10 +271,11 @@ def gen_histories(ck, n, steps):
                     extra = min(extra + 2, 6)
             elif op == "unreg" and rng.random() < 0.3 and nin:
                 beh.append({"a": "unreg", "arg": {"i": rng.randrange(1, nin + extra + 1)}})
-            elif op == "table":
+            elif op == "table" and attached:
                 table_ops(1)
             elif op == "attach" and rng.random() < 0.15:
                 beh.append({"a": "attach", "arg": {"x": 0}})
+                attached = True
                 table_ops(rng.randrange(0, 3))
             elif op == "refuse" and rng.random() < 0.3:
                 if nin and rng.random() < 0.7:
@@ -288,8 +291,10 @@ def gen_histories(ck, n, steps):
                 beh.append({"a": "conn", "arg": {"i": listener}})
             elif op == "fini" and rng.random() < 0.1 and listener is None:
                 beh.append({"a": "fini", "arg": {"x": 0}})
+                attached = False
                 if rng.random() < 0.7:
                     beh.append({"a": "attach", "arg": {"x": 0}})
+                    attached = True
                     table_ops(rng.randrange(1, 3))
         beh.append({"a": "fini", "arg": {"x": 0}})
         behs.append(beh)
